@@ -2,6 +2,7 @@ package det
 
 import (
 	"fmt"
+	"os"
 	"testing"
 
 	"pgregory.net/rapid"
@@ -28,6 +29,9 @@ func enumLight(t *testing.T, prop, part string, progs []Case) {
 	maxSteps := envInt("VERIF_LIGHT_MAXSTEPS") // programs with a longer concurrent phase get bound 1 unless marked Deep
 	total, progsDone := 0, 0
 	for _, prog := range progs {
+		if os.Getenv("VERIF_TIER") != "thorough" && !prog.Deep {
+			continue // quick tier: the other programs are enumerated at bound 1 on the real stack (part enum)
+		}
 		for rot := 0; rot < len(prog.Clients); rot++ {
 			p := prog
 			p.Light = true
